@@ -1,7 +1,8 @@
 #!/usr/bin/env python3
 # Regenerates /verif/MANIFEST.json from /verif/props.json (claimed properties) and
 # /verif/not_applicable.json (reasons for the rest).
-import json
+import json,subprocess
+hookcommits=[l.split()[0] for l in subprocess.check_output(['git','-C','/repo','log','--format=%h %s']).decode().splitlines() if l.split(' ',1)[1].startswith('verif')]
 props=[json.loads(l) for l in open('/verif/properties.jsonl')]
 cfg=json.load(open('/verif/props.json'))
 na=json.load(open('/verif/not_applicable.json'))
@@ -13,7 +14,7 @@ m={
   "guard":"verif",
   "enable":"govc loads /repo with go/packages BuildFlags -tags=verif; the guarded files (<pkg>/zz_contracts_verif.go) are comment-only contract files (//@ lines) and add no code",
   "baseline_off_cmd":"cd /repo && go test -mod=mod -vet=off -count=1 ./...",
-  "source_commits":[],
+  "source_commits":hookcommits,
   "add_only":True
  },
  "engines":[{"name":"govc","path":"/verif/cmd/govc","serves_properties":sorted(claimed),"kind_free_text":"contract-based deductive verifier for Go written for this task: symbolic execution / weakest-precondition style VC generation over go/ssa (NaiveForm) of the real functions under contract, contracts as //@ comments in guarded files, engine-side quantifier instantiation, obligations discharged by a z3 5.1 / cvc5 1.0 / z3 4.8 portfolio; counterexamples replayed on the real code through a go test -overlay driver"}],
